@@ -238,7 +238,7 @@ func CheckedAs[T fixed.Dx, TO xmath.Numeric](f Int[T]) (TO, error) {
 		}
 	default:
 		n = TO(int64(f) / Multiplier[T]())
-		if From[T](n) != f {
+		if From[T](n) != f || (n < 0) != (f < 0) {
 			return 0, fixed.ErrDoesNotFitInRequestedType
 		}
 	}
